@@ -478,6 +478,45 @@ func runC11(w *World, r *Report) {
 					afterClose = true
 				}
 			}
+			if !afterClose && len(closes) == 0 {
+				// the drain may be a method of its own: every place that calls or starts it must do so after
+				// closing the connection
+				nSites, allAfter := 0, true
+				w.eachModuleFunc(func(g *FuncInfo) {
+					ginf := g.Pkg.TypesInfo
+					var gcloses []token.Pos
+					ast.Inspect(g.Decl.Body, func(m ast.Node) bool {
+						if c, ok := m.(*ast.CallExpr); ok {
+							if se, ok := unparen(c.Fun).(*ast.SelectorExpr); ok && se.Sel.Name == "Close" && fieldOf(ginf, se.X) == so.conn {
+								gcloses = append(gcloses, c.Pos())
+							}
+						}
+						return true
+					})
+					ast.Inspect(g.Decl.Body, func(m ast.Node) bool {
+						c, ok := m.(*ast.CallExpr)
+						if !ok {
+							return true
+						}
+						if fn, ok := typeutil.Callee(ginf, c).(*types.Func); ok && fn == fi.Obj {
+							nSites++
+							before := false
+							for _, cp := range gcloses {
+								if cp < c.Pos() {
+									before = true
+								}
+							}
+							if !before {
+								allAfter = false
+							}
+						}
+						return true
+					})
+				})
+				if nSites > 0 && allAfter {
+					afterClose = true
+				}
+			}
 			switch {
 			case !discarded:
 				r.Fail(VViolation, "receivers", fi.Key, "recv", w.Pos(pos), "a second consumer takes messages from the outbound channel and uses them: order and exactly-once of the writer no longer hold")
